@@ -72,6 +72,7 @@
 #define END_OF_FILE     (ERR-18)
 #define SEARCH_FAILED   (ERR-19)
 #define NO_LINE_RANGE   (ERR-20)
+#define SESSION_ENDED   (ERR-21)	/* an LPC callback ended the session: the buffer is gone */
 
 #define	BUFFER_SIZE	2048	/* stream-buffer size:  == 1 hd cluster */
 
@@ -110,6 +111,9 @@ typedef struct ed_buffer_s {
     char *exit_fn;		/* Function to be called when user exits */
     char *write_fn;             /* Function to be called when user writes */
     object_t *exit_ob;	/* in this object */
+    int teardown;		/* save_ed_buffer()/free_ed_buffer() has started on this buffer */
+    int pinned;			/* frames that use the buffer and are inside an LPC callback */
+    int dead;			/* torn down while pinned: the last of those frames frees the struct */
 #else
     object_t *owner;
     struct ed_buffer_s *next_ed_buf;
